@@ -360,23 +360,34 @@ def r10e_walkers(ctx):
                        "(extract_pytest_plugins)")
     crate = ctx.bin
     cg = ctx.callgraph()
+    from .. import roles
+    imp_x = roles.import_extractors(ctx)      # build FixtureImport records (`from x import ..` edges)
+    plg_x = roles.plugin_decl_extractors(ctx)  # read `pytest_plugins = ..` declarations
+    r.counts["import_extractors"] = ",".join(sorted(x.split("::")[-1] for x in imp_x))
+    r.counts["pytest_plugins_extractors"] = ",".join(sorted(x.split("::")[-1] for x in plg_x))
+    if not imp_x or not plg_x:
+        r.anchor_missing("edge extractors", "import extractors: %d, pytest_plugins extractors: %d" % (len(imp_x), len(plg_x)))
+        return r
     walkers = []
     for f in crate.real_fns():
-        if f.kind not in ("method", "fn"):
+        if f.kind not in ("method", "fn") or f.id in imp_x or f.id in plg_x:
             continue
-        if any((c.get("res") or "").endswith("::resolve_module_to_file") for _b, c in f.calls()):
+        # a walker follows edges: it calls an extractor itself (functions further up merely call the walker)
+        if any(c.get("res") in imp_x or c.get("res") in plg_x for g in crate.real_fns() if g.root == f.id for _b, c in g.calls()):
             walkers.append(f)
     for f in walkers:
         reach = cg.reach([f.id])
-        a = any(x.endswith("::extract_fixture_imports") for x in reach)
-        b = any(x.endswith("::extract_pytest_plugins") for x in reach)
+        a = any(x in imp_x for x in reach)
+        b = any(x in plg_x for x in reach)
         key = "R10e|%s" % f.id
+        if not a and not b:
+            continue
         if a and b:
             r.ok(sample={"walker": f.id.split("::")[-1], "edges": "imports + pytest_plugins"})
         else:
             r.violate(key, "%s follows %s but not %s" % (f.id.split("::")[-1], "imports" if a else "pytest_plugins" if b else "neither",
                                                          "pytest_plugins" if a else "imports"))
-    r.floor("import-graph walkers", len(walkers), 2)
+    r.floor("import-graph walkers", r.examined, 2)
     return r
 
 
